@@ -2025,7 +2025,7 @@ fn main() {
     quiet_panics();
     let args = Args::parse();
     let mut cx = Ctx { s: Session::new(&args.out), fixtures: load_fixtures() };
-    cx.s.rule = "inputs: (a) every CDN fixture of crates/cascette-formats/test_fixtures unmutated (byte-identity test) and under 1-3 random mutations aimed at header fields, counts, sizes, footers, truncation, trailing bytes, small inserts/deletes (text formats: white space, separators, comments, CR/LF, non-ASCII); (b) outputs of every format's builder on random programs, unmutated (builder-form claim) and mutated; (c) hand-framed size/download/install/ZBSDIFF headers over every version, key size, esize width, has_checksum byte 0/1/2/255, flag size 0-5, reserved bytes, sizes at 0/2^31/10^9+-1; hand-framed patch indices over every extra-header shape (absent, key size 0..16, > 16, with extra data, overrunning), block-type sequences (1/2/8/unknown, 2 before/after 8, repeated), header_size before / at / after the end of the descriptors, block-8 data offsets 0/8/14/20/300, key sizes 0..200 with and without entries, wrong counts / sizes / data_size, each also with 1-3 mutations and data_size repaired; (d) component lines for TVFS: VfsTable::parse on random entry sequences under cft_table_size at every offset-width boundary (tables written for the header's width or for another one), ContainerFileTable::parse+build on random lengths with and without slack; (e) root builder programs V1-V4 (`rp`): 1-3 blocks, named / unnamed, FileDataIDs strictly increasing, or the same ID added twice to one block / all equal / neighbours / pairs / decreasing or random insertion order / both ends of the u32 range, and hand-framed root files V1-V4 whose FileDataID column is given as deltas (0xFFFFFFFF = same ID again, 0xFFFFFFFE.. = decreasing, 0, wrap past u32::MAX), 1-3 blocks of which two often share (locale, content) flags (merged on rebuild), each also mutated — all through the root model as well; (f) archive-index builder programs (`ap`) on every record layout (key size 2/4/9/12/16 x offset width 4/5/6), entry counts around the page capacity of that layout, locations at the ends of the offset width (5-byte offsets above 4 GiB, 6-byte archive:offset), taken through build -> parse -> from_archive_index -> build -> parse; archive-group builder outputs also as archive indices; encoding builder programs with unequal CKey/EKey page sizes; (g) builder-as-mutator: EVERY accepted input of archive index / root / install / download / encoding that reached the fixed point is loaded into the builder by its from_* constructor, built, serialised and parsed back (same logical content), archive index and root additionally with one entry added (location at the top of the offset width; FileDataID repeating / next to one of the block or at an end of the range) and removed again. Each whole-file input runs parse->build->parse->build on the real code. non-trivial = the first parse ACCEPTED the input (so the fixed-point claim was actually evaluated); distinct = (format, input hash)".into();
+    cx.s.rule = "inputs: (a) every CDN fixture of crates/cascette-formats/test_fixtures unmutated (byte-identity test) and under 1-3 random mutations aimed at header fields, counts, sizes, footers, truncation, trailing bytes, small inserts/deletes (text formats: white space, separators, comments, CR/LF, non-ASCII); (b) outputs of every format's builder on random programs, unmutated (builder-form claim) and mutated; (c) hand-framed size/download/install/ZBSDIFF headers over every version, key size, esize width, has_checksum byte 0/1/2/255, flag size 0-5, reserved bytes, sizes at 0/2^31/10^9+-1; hand-framed patch indices over every extra-header shape (absent, key size 0..16, > 16, with extra data, overrunning), block-type sequences (1/2/8/unknown, 2 before/after 8, repeated), header_size before / at / after the end of the descriptors, block-8 data offsets 0/8/14/20/300, key sizes 0..200 with and without entries, wrong counts / sizes / data_size, each also with 1-3 mutations and data_size repaired; (d) component lines for TVFS: VfsTable::parse on random entry sequences under cft_table_size at every offset-width boundary (tables written for the header's width or for another one), ContainerFileTable::parse+build on random lengths with and without slack; (e) root builder programs V1-V4 (`rp`): 1-3 blocks, named / unnamed, FileDataIDs strictly increasing, or the same ID added twice to one block / all equal / neighbours / pairs / decreasing or random insertion order / both ends of the u32 range, and hand-framed root files V1-V4 whose FileDataID column is given as deltas (0xFFFFFFFF = same ID again, 0xFFFFFFFE.. = decreasing, 0, wrap past u32::MAX), 1-3 blocks of which two often share (locale, content) flags (merged on rebuild), each also mutated — all through the root model as well; (f) archive-index builder programs (`ap`) on every record layout (key size 2/4/9/12/16 x offset width 4/5/6), entry counts around the page capacity of that layout, locations at the ends of the offset width (5-byte offsets above 4 GiB, 6-byte archive:offset), taken through build -> parse -> from_archive_index -> build -> parse; archive-group builder outputs also as archive indices; encoding builder programs with unequal CKey/EKey page sizes; (g) builder-as-mutator: EVERY accepted input of archive index / root / install / download / encoding that reached the fixed point is loaded into the builder by its from_* constructor, built, serialised and parsed back (same logical content), archive index and root additionally with one entry added (location at the top of the offset width; FileDataID repeating / next to one of the block or at an end of the range) and removed again; (h) builder programs given by parameters (`bp` lines, each a replayable request of a few tokens): InstallManifestBuilder from new() and from a hand-framed V1 / V2 manifest (0-3 tags, 0-17 files) followed by 1-9 editing calls (add_file, add_file_with_tags, remove_file, add_tag, remove_tag, associate, remove_file_from_tag) — bytes compared with the model, value with the reference; DownloadManifestBuilder from new(V1-V3, checksums, flag size 0-4, base priority) and from a hand-framed V1-V3 manifest (has_checksum byte 1/2/255) followed by add_file(+checksum) / remove_file / remove_file_by_key / add_tag / remove_tag / associate / disassociate / update_file_{key,size,priority} / set_file_flags; BlteBuilder by add_chunk, by add_data with the chunk size, and the 40-byte-row table, with 1,2,3,254..257 and 65535, 65536, 65537, 65536+k chunks (2^24 chunks need > 400 MB: not reached); TvfsBuilder for all 8 flag combinations x EST {none, small, 255/256-byte, 65535/65536-byte} with file counts n at which n * entry_size crosses 0xFF and 0xFFFF for the entry size before and after each widening of the patch-offset field (t/es-1 .. t/es+2 for each candidate size, plus a random count inside the window where the width depends on itself; thorough: the 0xFFFFFF crossing), every path resolved path -> VFS span -> container record against the values added; count / width families of the other builders, the builder's VALUE compared with the parsed content: install and download (V1/V2, V1-V3) with 255/256/257/65535/65536(+k) tags and files, size manifests for every esize width 1-8 at the cap of the width, counts across 2^8 / 2^16 and the V2 40-bit total at 256/257 x u32::MAX, root V1-V4 with 255..65536+k records, archive index (key size x offset width) and archive group (archive numbers up to 65535) with counts across 2^8 / 2^16, EncodingBuilder with 0/254/255/256/257 EKeys per CKey, entries at and above the page size, sizes at 2^32 / 2^40-1 / 2^40, ESpec tables across 255/256/65535/65536 bytes, 65536+k entries, and from_encoding_file + add + remove, PatchArchiveBuilder with 0/254..257 patches per entry, 254..257-byte ESpec, 255/256+ blocks, sizes at 2^40 (65536 blocks need 265 MB: not reached), patch index / ZBSDIFF / BPSV / ESpec block sizes (K/M unit thresholds, 2^32, 2^40, u64::MAX) / the data-archive builder across the same thresholds; members beyond a field width may be refused by the builder, everything built must read back. Each whole-file input runs parse->build->parse->build on the real code. non-trivial = the first parse ACCEPTED the input (so the fixed-point claim was actually evaluated); distinct = (format, input hash)".into();
     if let Some(p) = &args.replay {
         for l in read_case(p) {
             cx.run_req(&l);
@@ -3409,7 +3409,7 @@ impl Ctx {
                 let mut ekey = [0u8; 9];
                 ekey.copy_from_slice(&k[..9]);
                 R {
-                    path: format!("d{:03}/f{:07}", i / 61, i),
+                    path: format!("d{:06}/f{:07}", i / 61, i), // zero-padded: sorted order = insertion order
                     ekey,
                     esize: (i * 3 + 1) as u32,
                     csize: if i % 7 == 0 { u32::MAX >> 1 } else { (i * 5 + 2) as u32 },
@@ -3768,15 +3768,16 @@ impl Ctx {
                     Ok(Some(bytes))
                 })),
             ),
-            // encoding: n CKey entries (entry 0 with k EKeys), sizes by pattern fsz, ne distinct ESpec strings
+            // encoding: n CKey entries (entry 0 with k EKeys), sizes by pattern fsz (3 = one size of 2^40), ne distinct ESpec strings
             // of el bytes; mt = 1: the parsed file goes through from_encoding_file + add + remove
-            ("encodingw", &[cps, eps, n, k, fsz, ne, el, mt]) if (1..=64).contains(&cps) && (1..=64).contains(&eps) && (1..=100_000).contains(&n) && k <= 300 && fsz < 3 && (1..=70_000).contains(&ne) && (1..=70_000).contains(&el) && ne * el <= 200_000 && mt < 2 => (
+            ("encodingw", &[cps, eps, n, k, fsz, ne, el, mt]) if (1..=64).contains(&cps) && (1..=64).contains(&eps) && (1..=100_000).contains(&n) && k <= 300 && fsz < 4 && (1..=70_000).contains(&ne) && (1..=70_000).contains(&el) && ne * el <= 200_000 && mt < 2 => (
                 "encoding",
                 catch(AssertUnwindSafe(|| -> Res {
                     let class = format!("ekeys-per-ckey-{}-entries-{}-espec-bytes-{}", if k >= 256 { "ge-256" } else if k == 0 { "0" } else { "lt-256" }, cnt(n), cnt(ne * (el + 1)));
                     let size = |i: u64| match fsz {
                         0 => dsize40(i),
                         1 => 0xFF_FFFF_FFFF,
+                        3 if i == 1 => 1 << 40,
                         _ => [0xFFFF_FFFFu64, 0x1_0000_0000, 0xFFFF_FFFF_FF, 0][i as usize % 4],
                     };
                     let spec = |j: u64| -> String {
@@ -4048,7 +4049,7 @@ fn bp_may_refuse(fmt: &str, v: &[u64]) -> bool {
         ("downloadw", &[_, _, _, nt, _]) => nt > 65535,
         ("sizew", &[ver, _, _, nt, nf, _]) => nt > 65535 || (ver == 2 && nf >= 257),
         ("rootw", &[ver, named, _, n]) => ver == 2 && (16..100).contains(&n) && (named == 0 || n < 10),
-        ("encodingw", &[cps, _, _, k, ..]) => k == 0 || k >= 256 || 22 + 16 * k > cps * 1024,
+        ("encodingw", &[cps, _, _, k, fsz, ..]) => k == 0 || k >= 256 || 22 + 16 * k > cps * 1024 || fsz == 3,
         ("parchivew", &[ver, bits, _, np, el, dsz]) => !(1..=2).contains(&ver) || !(12..=24).contains(&bits) || np == 0 || np >= 256 || el >= 256 || dsz == 1,
         ("zbsw", &[ol, nl, _]) => ol == 0 || nl == 0,
         _ => false,
@@ -4241,9 +4242,10 @@ fn builder_programs(cx: &mut Ctx, rng: &mut Rng, th: bool) {
                 cx.run_req(&format!("bp tvfs {flags} {ns} {sl} {n}"));
             }
         }
-        if th && (flags == 5 || flags == 0 || flags == 7) {
-            let es = 13 + if flags & 1 != 0 { 9 } else { 0 } + if flags & 2 != 0 { 1 } else { 0 } + if flags & 4 != 0 { 3 } else { 0 };
-            for n in [0xFF_FFFFu64 / es, 0xFF_FFFF / es + 1] {
+        // the 0xFFFFFF crossing (about 20 s per case): INCLUDE_CKEY|PATCH_SUPPORT on both sides, all flags once
+        if th && (flags == 5 || flags == 7) {
+            let es = 13 + 9 + if flags & 2 != 0 { 1 } else { 0 } + 3;
+            for n in if flags == 5 { vec![0xFF_FFFFu64 / es, 0xFF_FFFF / es + 1] } else { vec![0xFF_FFFF / es + 1] } {
                 cx.run_req(&format!("bp tvfs {flags} {} 8 {n}", if flags & 2 != 0 { 3 } else { 0 }));
             }
         }
@@ -4297,6 +4299,7 @@ fn builder_programs(cx: &mut Ctx, rng: &mut Rng, th: bool) {
         (4, 4, 10, 255, 0, 3, 5, 0),
         (1, 1, 30, 62, 0, 3, 5, 0),
         (1, 1, 30, 63, 0, 3, 5, 0),
+        (4, 4, 30, 1, 3, 3, 5, 0),
         (4, 4, 300, 1, 0, 1, 254, 1),
         (4, 4, 300, 1, 0, 1, 255, 1),
         (4, 4, 300, 1, 0, 255, 256, 1),
